@@ -412,6 +412,31 @@ def assemble {K : Type} (dt : DType) (shp : Option (List Nat)) (crows : List (Li
       | some s => if s ≠ [nr, nc] then .error .shape else .ok (.arr dt nr nc (crows.flatMap id))
       | none => .ok (.arr dt nr nc (crows.flatMap id))
 
+/-- parameters one written array element registers: a bare `{p}`, or those inside an expression -/
+def elemPars : Expr → List String
+  | .par p => [p]
+  | e => e.pars
+
+/-- one written array element evaluated: a bare `{p}` stays a parameter, anything else a value -/
+def evalElem (T : Tables K) : Expr → Except Err (Option (Val K) × Option String)
+  | .par p => .ok (none, some p)
+  | e => do .ok (some (← evalExpr T e), none)
+
+/-- cast of one evaluated element to the array's type -/
+def castRowElem (ty : VarType) (name : String) (pos : Pos) :
+    Option (Val K) × Option String → Except Err (SExpr K)
+  | (_, some p) => .ok (.par p)
+  | (some v, none) => match castElem ty v with
+                      | .ok e => .ok (.num e)
+                      | .typeErr => .error (.syntax .arrayType name pos)
+                      | .ood => .error (.ood "array element not modelled")
+  | (none, none) => .error (.ood "unreachable")
+
+/-- storing the finished array; a p-array of a tdm program is registered by name -/
+def finishArr (tdm : Bool) (name : String) (T : Tables K) (v : Val K) : Tables K :=
+  let T : Tables K := if tdm && isPType name then { T with params := T.params ++ [.pname name] } else T
+  { T with vars := dictSet T.vars name v }
+
 /-- `exitArrayvar` (repaired: parameter positions, row-length check) -/
 def arrEffect (tdm : Bool) (T : Tables K) (ty : VarType) (pos : Pos) (n : VName)
     (shape : Option (List String)) (body : ArrBody) : LRes K (Tables K) := do
@@ -419,31 +444,16 @@ def arrEffect (tdm : Bool) (T : Tables K) (ty : VarType) (pos : Pos) (n : VName)
   match body with
   | .bare _ => .error (.attribute, T)      -- `ctx.arrayval()` is None for this alternative
   | .rows rows =>
-    let pars := rows.flatMap fun r => r.flatMap fun e => match e with | .par p => [p] | e => e.pars
+    let pars := rows.flatMap fun r => r.flatMap elemPars
     let T' : Tables K := { T with params := T.params ++ pars.map .sym }
     -- evaluate
-    let evalRow (r : List Expr) : Except Err (List (Option (Val K) × Option String)) :=
-      r.mapM fun e => match e with
-        | .par p => .ok (none, some p)
-        | e => do .ok (some (← evalExpr T e), none)
-    let erows ← liftE T' (rows.mapM evalRow)
+    let erows ← liftE T' (rows.mapM fun r => r.mapM (evalElem T))
     let some dt := dtypeOf ty | .error (.ood "array of non-numeric type", T')
     -- cast values
-    let castRow (r : List (Option (Val K) × Option String)) : Except Err (List (SExpr K)) :=
-      r.mapM fun x => match x with
-        | (_, some p) => .ok (.par p)
-        | (some v, none) => match castElem ty v with
-                            | .ok e => .ok (.num e)
-                            | .typeErr => .error (.syntax .arrayType n.text pos)
-                            | .ood => .error (.ood "array element not modelled")
-        | (none, none) => .error (.ood "unreachable")
-    let crows ← liftE T' (erows.mapM castRow)
+    let crows ← liftE T' (erows.mapM fun r => r.mapM (castRowElem ty n.text pos))
     let nvals := (erows.flatMap id).filter (fun x => x.2.isNone) |>.length
     let parsHere := (erows.flatMap id).filterMap (·.2)
     let shp := shape.map (·.map digitsToNat)
-    let finish (T : Tables K) (v : Val K) : Tables K :=
-      let T : Tables K := if tdm && isPType n.text then { T with params := T.params ++ [.pname n.text] } else T
-      { T with vars := dictSet T.vars n.text v }
     if nvals = 0 && parsHere.length = 1 then
       -- whole-array parameter
       match shp, parsHere with
@@ -454,11 +464,11 @@ def arrEffect (tdm : Bool) (T : Tables K) (ty : VarType) (pos : Pos) (n : VName)
         let names := (rangeNat r).flatMap fun i => (rangeNat c).map fun j =>
           PEntry.sym (p ++ "_" ++ toString i ++ "_" ++ toString j)
         let T'' : Tables K := { T' with params := (T'.params ++ names).erase (.sym p) }
-        .ok (finish T'' (.arr .object r c flat))
+        .ok (finishArr tdm n.text T'' (.arr .object r c flat))
       | _, _ => .error (.ood "whole-array parameter with a shape that is not two-dimensional", T')
     else
       match assemble (if parsHere.isEmpty then dt else .object) shp crows with
-      | .ok v => .ok (finish T' v)
+      | .ok v => .ok (finishArr tdm n.text T' v)
       | .error .ragged => .error (.syntax .ragged n.text pos, T')
       | .error .shape => .error (.syntax .shapeMismatch n.text pos, T')
       | .error .empty => .error (.value, T')              -- reshape(0, -1)
